@@ -325,6 +325,8 @@ def run_case(res, base, case, idx, second_run):
         sw = sw[-1]
         res.count('sweeps')
         res.count('proposals_retested', sw['tested'])
+        if sw.get('transport_failures'):
+            res.count('sweeps_in_which_the_pickle_transport_failed')
         if sw.get('truncated'):
             res.count('sweeps_truncated')
         for k, v in sw['per_mutator'].items():
